@@ -10,6 +10,21 @@ RULE = ("queued receivers: exhaustive capacity 0..5 x fill 0..cap x closed x lim
 ASSUMPTIONS = ["channels, select, timers and contexts by contract", "wall-clock: timers are only ever short (drive the timeout branch) or absent (drive the blocking branch); when both are ready either outcome is accepted"]
 
 
+def LINE_COST_S(line):
+    """expected wall-clock seconds of a line that waits on real timers (the runner adds 3x this to its hang timeout)"""
+    t = line.split()
+    try:
+        if t[0] == "recvclose":      # <cap> <tmo_ms> <rounds> <procs>
+            return int(t[3]) * (int(t[2]) + 0.3) / 1000.0
+        if t[0] == "sendrace":       # <mode> <tmo> <rounds> <procs>: mode 0 tmo in us, mode 1 in ns
+            return int(t[3]) * (int(t[2]) + 150) / 1e6 if t[1] == "0" else int(t[3]) * 2e-6
+        if t[0] in ("sendtimeout", "sendcontext", "recvtimeout", "recvcontext"):
+            return 0.25
+    except (ValueError, IndexError):
+        pass
+    return 0.0
+
+
 def explore(core, rng, tier, seed, search=False):
     scripts = []
     sc = []
